@@ -138,8 +138,20 @@ impl MarkdownEventsReader {
                 DisplayMath(_) => {}
                 Html(_) => {}
                 InlineHtml(text) => {
+                    // a tag or comment that spans lines comes with the indentation and quote
+                    // markers of its container on the continuation lines; the writer puts them
+                    // in front of every line again
+                    let text = text
+                        .lines()
+                        .enumerate()
+                        .map(|(n, line)| match n {
+                            0 => line,
+                            _ => line.trim_start_matches(|c| c == ' ' || c == '\t' || c == '>'),
+                        })
+                        .collect::<Vec<_>>()
+                        .join("\n");
                     self.push_inline(
-                        DocumentInline::Str(text.to_string()),
+                        DocumentInline::Str(text),
                         self.to_line_range(range),
                     );
                     self.pop_inline();
